@@ -280,8 +280,8 @@ type sortSite struct {
 	fn              string
 	nth             int // which sort.Slice inside fn; -1: closure assigned to `closure`; -2: fn itself is the less function
 	closure         string
-	aTok, bTok      string         // for nth == -2
-	fields          map[string]int // normalised field text -> field index of the model's item
+	aTok, bTok      string            // for nth == -2
+	fields          map[string]int    // normalised field text -> field index of the model's item
 	kinds           map[string]string // normalised field text -> how to build values for it (semantic reading, gen_det_eval); nil: syntactic only
 }
 
@@ -393,7 +393,8 @@ func init() {
 				fields: map[string]int{"§A.StartLine": 0, "§A.EndLine": 1, "§A.BlockID": 2},
 				kinds:  map[string]string{"§A.StartLine": "int", "§A.EndLine": "int", "§A.BlockID": "str"}},
 			{name: "dead_closer", dir: "internal/analyzer", file: "dead_code.go", recv: "DeadCodeDetector", fn: "findTerminatorInPredecessors", nth: -1, closure: "closer",
-				fields: map[string]int{"dcd.getBlockEndLine(§A)": 0, "§A.ID": 1}},
+				fields: map[string]int{"dcd.getBlockEndLine(§A)": 0, "§A.ID": 1},
+				kinds:  map[string]string{"dcd.getBlockEndLine(§A)": "blockend", "§A.ID": "str"}},
 			{name: "cycles", dir: "internal/analyzer", file: "circular_detector.go", recv: "CircularDependencyDetector", fn: "processComponents",
 				fields: map[string]int{"cdd.severityOrder(§A.Severity)": 0, "§A.Size": 1, "§A.Modules[0]": 2},
 				kinds:  map[string]string{"cdd.severityOrder(§A.Severity)": "consts:CycleSeverity", "§A.Size": "int", "§A.Modules[0]": "str"}},
@@ -414,7 +415,7 @@ func init() {
 				kinds:  map[string]string{"§A.Similarity": "float", "§A.Size": "int", "fragmentLess(§A.Fragments[0])": "frag"}},
 			{name: "fragment_less", dir: "internal/analyzer", file: "star_medoid_grouping.go", fn: "fragmentLess", nth: -2, aTok: "a", bTok: "b",
 				fields: map[string]int{"§A.Location.FilePath": 0, "§A.Location.StartLine": 1, "§A.Location.StartCol": 2, "§A.Location.EndLine": 3, "§A.Location.EndCol": 4},
-				kinds: map[string]string{"§A.Location.FilePath": "str", "§A.Location.StartLine": "int", "§A.Location.StartCol": "int", "§A.Location.EndLine": "int", "§A.Location.EndCol": "int"}},
+				kinds:  map[string]string{"§A.Location.FilePath": "str", "§A.Location.StartLine": "int", "§A.Location.StartCol": "int", "§A.Location.EndLine": "int", "§A.Location.EndCol": "int"}},
 		}
 		for _, s := range sites {
 			p := get(s.dir)
@@ -625,24 +626,59 @@ func init() {
 				}
 			}
 		}
-		// the line window of findTerminatorInPredecessors: (blockStartLine-otherEndLine) <= N
+		// the line window of findTerminatorInPredecessors (a terminating block that ends g lines before the dead block starts is
+		// taken as its reason for 1 <= g <= N): read by running the function on a two-block CFG, terminator lookup stubbed
 		{
 			pa := get("internal/analyzer")
-			found := false
-			if fd := findFunc(pa, "dead_code.go", "DeadCodeDetector", "findTerminatorInPredecessors"); fd != nil {
-				ast.Inspect(fd.Body, func(nd ast.Node) bool {
-					be, ok := nd.(*ast.BinaryExpr)
-					if ok && be.Op == token.LEQ && !found && strings.Contains(src(pa, be.X), "blockStartLine") && strings.Contains(src(pa, be.X), "otherEndLine") {
-						if v, ok := intLit(be.Y); ok {
-							fmt.Fprintf(&b, "Definition dead_window : Z := %d%%Z.\n", v)
-							found = true
+			fd := findFunc(pa, "dead_code.go", "DeadCodeDetector", "findTerminatorInPredecessors")
+			if fd == nil {
+				fail("det: findTerminatorInPredecessors not found")
+			} else {
+				in := newInterp(pa)
+				in.Extern = func(c *CallCtx) ([]Value, bool) {
+					if c.Name == "dcd.blockTerminatorReason" && c.NArgs() == 1 {
+						if blk, _ := c.Arg(0).(*Struct); blk != nil {
+							if r, ok := blk.F["reason__"]; ok {
+								return []Value{r}, true
+							}
 						}
+						return []Value{""}, true
 					}
-					return true
-				})
-			}
-			if !found {
-				fail("det: line window of findTerminatorInPredecessors not found")
+					return nil, false
+				}
+				block := func(id string, start, end int64, reason string) *Struct {
+					return mkStruct("BasicBlock", "ID", id, "reason__", reason, "Predecessors", nil,
+						"Statements", mkSlice(mkStruct("Node", "Location", mkStruct("Location", "StartLine", start, "EndLine", end))))
+				}
+				const start = 100
+				var gaps []int64
+				var vals []string
+				bad := false
+				for g := int64(-3); g <= 60 && !bad; g++ {
+					dead := block("dead", start, start+2, "")
+					other := block("other", start-g-1, start-g, "TERMINATOR")
+					dcd := mkStruct("DeadCodeDetector", "cfg", mkStruct("CFG", "Blocks", &Map{M: map[interface{}]Value{"dead": dead, "other": other}}))
+					vs, err := in.CallFunc(pa, fd, dcd, dead)
+					if err != nil || len(vs) != 2 {
+						fail("det: findTerminatorInPredecessors cannot be evaluated: %v", err)
+						bad = true
+						break
+					}
+					gaps = append(gaps, g)
+					if vs[0] == "TERMINATOR" {
+						vals = append(vals, "in")
+					} else {
+						vals = append(vals, "out")
+					}
+				}
+				if !bad {
+					segs := stepSegments(gaps, vals)
+					if len(segs) == 3 && segs[0].val == "out" && segs[1].val == "in" && segs[1].from == 1 && segs[2].val == "out" {
+						fmt.Fprintf(&b, "Definition dead_window : Z := %d%%Z.\n", segs[2].from-1)
+					} else {
+						fail("det: the line window of findTerminatorInPredecessors is not `1 <= gap <= N`")
+					}
+				}
 			}
 		}
 		recordDigest(get("service"), "system_analysis_service.go", "", "dependencyPathLess")
